@@ -88,7 +88,11 @@ def run_big(case):
             b = bigimg.build("1.5", n, p, case["seed"], sparse_dir=d)
             url = d
             # one pass over the file in small requests writes the index; every further open is served from it
-            ceos_alos2.open_alos2(url, backend_options={"use_cache": False, "create_cache": True, "records_per_chunk": 64})
+            try:
+                ceos_alos2.open_alos2(url, backend_options={"use_cache": False, "create_cache": True, "records_per_chunk": 64})
+            except BaseException as e:  # noqa: B902
+                res["bad"].append((64, f"a well-formed 2.2 GB image could not be opened with records_per_chunk=64: {type(e).__name__}: {str(e)[:150]}"))
+                return res
             base = {}
         else:
             b = bigimg.build("1.5", n, p, case["seed"])
